@@ -220,14 +220,15 @@ OffsOf(H) == IF H = {} THEN <<>>
              ELSE LET h == CHOOSE x \in H : \A y \in H : x[1] < y[1] \/ (x[1] = y[1] /\ x[2] <= y[2])
                   IN <<Off(h[1], h[2])>> \o OffsOf(H \ {h})
 
-\* what the write-path model predicts for the target note of a burst on ONE chip (all writes in one queue)
-Predict(emu, evs, key) ==
+\* what the write-path model predicts for the target note of a burst on ONE chip (all writes in one queue);
+\* fixRing / fixNuked = the tree under test has the ring / the delay queue repaired (bounded backlog, nothing lost)
+Predict(emu, evs, key, fixRing, fixNuked) ==
   LET n == BurstCost({}, evs)
       kon == KeyOnPos({}, evs, 1, 0, <<0, key>>, 0)
       first == kon - WOn + 1                      \* first write of the target's note-on (its patch)
-  IN CASE IsYmfm(emu) /\ RingLost(first, n, RingCap) -> "lost"          \* the patch never reaches the chip
-       [] IsYmfm(emu) /\ n > RingCap -> "replayed"                         \* it does, but stale entries are applied around it
-       [] IsNuked(emu) /\ NukedLatencyCycles(kon, n, NukedCap, NukedCyclesPerWrite) * 1000
+  IN CASE IsYmfm(emu) /\ ~fixRing /\ RingLost(first, n, RingCap) -> "lost"          \* the patch never reaches the chip
+       [] IsYmfm(emu) /\ ~fixRing /\ n > RingCap -> "replayed"                         \* it does, but stale entries are applied around it
+       [] IsNuked(emu) /\ ~fixNuked /\ NukedLatencyCycles(kon, n, NukedCap, NukedCyclesPerWrite) * 1000
                               > 10 * NativeRate(0) * NukedCyclesPerSample -> "late"
        [] OTHER -> "ok"
 
